@@ -1,6 +1,7 @@
 pub mod c01;
 pub mod c02;
 pub mod c03;
+pub mod c04;
 pub mod c08;
 pub mod c11;
 pub mod c13;
@@ -13,6 +14,7 @@ pub fn run(p: &str, thorough: bool, rest: &[String]) {
         "C01" => c01::run(thorough),
         "C02" => c02::run(thorough),
         "C03" => c03::run(thorough),
+        "C04" => c04::run(thorough),
         "C08" => c08::run(thorough),
         "C11" => c11::run(thorough),
         "C13" => c13::run(thorough),
